@@ -285,15 +285,298 @@ type Analysis struct {
 	Pre    []Aff // assumed facts about parameters (established at every call site)
 	inv    map[ssa.Value][]Aff
 	InvDoc []string
+	canonC map[ssa.Value]ssa.Value
+	memOps []memOp
+	cond   []condFact
 }
 
+// CalleeWrites, when set, reports whether a call may write the memory named by key
+// (a field name for field keys). nil means: any call to a function with a body in
+// the module may.
+var CalleeWrites func(c *ssa.CallCommon, field string) bool
+
 func New(g *ssax.Graph, env *Env, pre []Aff) *Analysis {
-	a := &Analysis{G: g, Env: env, Pre: pre, inv: map[ssa.Value][]Aff{}}
+	a := &Analysis{G: g, Env: env, Pre: pre, inv: map[ssa.Value][]Aff{}, canonC: map[ssa.Value]ssa.Value{}}
+	a.indexMemory()
+	a.indexCondPhis()
 	a.houdini()
 	return a
 }
 
 func name(v ssa.Value) string { return v.Name() }
+
+// ---- memory-equivalent loads -------------------------------------------------
+//
+// go/ssa has no CSE and keeps closure-captured variables and struct fields in
+// memory, so `len(ts.background)` and `ts.background[i]` read two different
+// values. canon maps a load to the earliest dominating load of the same
+// location with no write to that location on any path in between; both then
+// share one symbol.
+
+type memOp struct {
+	instr ssa.Instruction
+	key   string // location key of a store, or "" for a call
+	field string
+	call  *ssa.CallCommon
+}
+
+func (a *Analysis) addrKey(addr ssa.Value) (key, field string) {
+	switch x := addr.(type) {
+	case *ssa.Alloc:
+		return "A:" + x.Name(), ""
+	case *ssa.FieldAddr:
+		f := ssax.FieldOf(x)
+		if f == nil {
+			return "", ""
+		}
+		b := a.canon(x.X)
+		return "F:" + b.Name() + "." + f.Name(), f.Name()
+	case *ssa.IndexAddr:
+		if k, ok := ssax.ConstInt(x.Index); ok {
+			b := a.canon(x.X)
+			return fmt.Sprintf("I:%s[%d]", b.Name(), k), "[]"
+		}
+	}
+	return "", ""
+}
+
+func (a *Analysis) indexMemory() {
+	a.G.Instrs(func(i ssa.Instruction) {
+		switch x := i.(type) {
+		case *ssa.Store:
+			switch ad := x.Addr.(type) {
+			case *ssa.Alloc:
+				a.memOps = append(a.memOps, memOp{instr: i, key: "A:" + ad.Name()})
+			case *ssa.FieldAddr:
+				if f := ssax.FieldOf(ad); f != nil {
+					a.memOps = append(a.memOps, memOp{instr: i, key: "F", field: f.Name()})
+				}
+			case *ssa.IndexAddr:
+				a.memOps = append(a.memOps, memOp{instr: i, key: "I", field: "[]"})
+			default:
+				a.memOps = append(a.memOps, memOp{instr: i, key: "?"})
+			}
+		case *ssa.Call:
+			if _, isBuiltin := x.Call.Value.(*ssa.Builtin); !isBuiltin {
+				a.memOps = append(a.memOps, memOp{instr: i, call: &x.Call})
+			}
+		case *ssa.MapUpdate, *ssa.Send:
+		}
+	})
+}
+
+// mayClobber: can op change the location (key, field)?
+func (a *Analysis) mayClobber(op memOp, key, field string) bool {
+	if op.call != nil {
+		if strings.HasPrefix(key, "A:") {
+			// a local cell: only a closure that binds and writes it
+			if mc, ok := op.call.Value.(*ssa.MakeClosure); ok {
+				for _, b := range mc.Bindings {
+					if al, ok := b.(*ssa.Alloc); ok && "A:"+al.Name() == key && ssax.ClosureWrites(mc, al) {
+						return true
+					}
+				}
+				return false
+			}
+			// a call through a function value held in a cell could be such a closure
+			if op.call.StaticCallee() == nil && !op.call.IsInvoke() {
+				for _, b := range a.G.Fn.Blocks {
+					for _, ins := range b.Instrs {
+						if mc, ok := ins.(*ssa.MakeClosure); ok {
+							for _, bd := range mc.Bindings {
+								if al, ok := bd.(*ssa.Alloc); ok && "A:"+al.Name() == key && ssax.ClosureWrites(mc, al) {
+									return true
+								}
+							}
+						}
+					}
+				}
+			}
+			return false
+		}
+		if strings.HasPrefix(key, "I:") {
+			return false // callees do not write the caller's argument slices here (trusted: no element stores through parameters in the analysed set)
+		}
+		if CalleeWrites != nil {
+			return CalleeWrites(op.call, field)
+		}
+		cal := op.call.StaticCallee()
+		return cal == nil || cal.Blocks != nil
+	}
+	switch {
+	case op.key == "?":
+		return true
+	case strings.HasPrefix(key, "A:"):
+		return op.key == key
+	case strings.HasPrefix(key, "F:"):
+		return op.key == "F" && op.field == field
+	case strings.HasPrefix(key, "I:"):
+		return op.key == "I"
+	}
+	return true
+}
+
+func (a *Analysis) canon(v ssa.Value) ssa.Value {
+	if c, ok := a.canonC[v]; ok {
+		return c
+	}
+	a.canonC[v] = v
+	u, ok := v.(*ssa.UnOp)
+	if !ok || u.Op != token.MUL {
+		return v
+	}
+	key, field := a.addrKey(u.X)
+	if key == "" {
+		return v
+	}
+	// earlier loads of the same location, and stores to it (whose stored value is then the value)
+	var best ssa.Value
+	a.G.Instrs(func(i ssa.Instruction) {
+		if best != nil {
+			return
+		}
+		var cand ssa.Value
+		switch x := i.(type) {
+		case *ssa.UnOp:
+			if x == u || x.Op != token.MUL {
+				return
+			}
+			k2, _ := a.addrKey(x.X)
+			if k2 != key {
+				return
+			}
+			cand = x
+		case *ssa.Store:
+			k2, _ := a.addrKey(x.Addr)
+			if k2 != key {
+				return
+			}
+			cand = nil
+			if !a.G.Dominates(x, u) {
+				return
+			}
+			if a.clobberedBetween(x, u, key, field) {
+				return
+			}
+			best = a.canon(x.Val)
+			return
+		default:
+			return
+		}
+		ci := cand.(ssa.Instruction)
+		if !a.G.Dominates(ci, u) {
+			return
+		}
+		if a.clobberedBetween(ci, u, key, field) {
+			return
+		}
+		best = a.canon(cand)
+	})
+	if best != nil {
+		a.canonC[v] = best
+		return best
+	}
+	return v
+}
+
+// clobberedBetween: some write to the location lies on a path from `from` to `to`
+// that does not pass `from` again.
+func (a *Analysis) clobberedBetween(from, to ssa.Instruction, key, field string) bool {
+	for _, op := range a.memOps {
+		if op.instr == from || !a.mayClobber(op, key, field) {
+			continue
+		}
+		isFrom := func(i ssa.Instruction) bool { return i == from }
+		hit1, _ := a.G.ReachableWithout(ssax.PointAfter(from), func(i ssa.Instruction) bool { return i == op.instr }, isFrom)
+		if hit1 == nil {
+			continue
+		}
+		if op.instr == to {
+			continue
+		}
+		hit2, _ := a.G.ReachableWithout(ssax.PointAfter(op.instr), func(i ssa.Instruction) bool { return i == to }, isFrom)
+		if hit2 != nil {
+			return true
+		}
+	}
+	return false
+}
+
+// ---- conditional facts from two-way merges -------------------------------------
+//
+// x := 1; if c { x = 2 }   gives   c => x == 2  and  !c => x == 1.
+// When a structurally equal condition is known at a site, the matching equality
+// is added to the facts (scriptMatch: want is 2 exactly when name == "grep").
+
+type condFact struct {
+	cond ssa.Value
+	val  bool
+	phi  *ssa.Phi
+	edge ssa.Value
+}
+
+func (a *Analysis) indexCondPhis() {
+	a.G.Instrs(func(i ssa.Instruction) {
+		phi, ok := i.(*ssa.Phi)
+		if !ok || len(phi.Edges) != 2 || !isInt(phi.Type()) {
+			return
+		}
+		blk := phi.Block()
+		d := a.G.Idom(blk.Index)
+		if d < 0 {
+			return
+		}
+		db := a.G.Fn.Blocks[d]
+		ifi, ok := db.Instrs[len(db.Instrs)-1].(*ssa.If)
+		if !ok {
+			return
+		}
+		for k, pred := range blk.Preds {
+			// which side of the If does this pred lie on?
+			var side *bool
+			for si, sb := range db.Succs {
+				v := si == 0
+				if sb == pred && len(a.G.Preds[pred.Index]) == 1 {
+					side = &v
+				} else if sb == blk && pred == db {
+					side = &v
+				}
+			}
+			if side == nil {
+				return
+			}
+			a.cond = append(a.cond, condFact{ifi.Cond, *side, phi, phi.Edges[k]})
+		}
+	})
+}
+
+func condEquiv(x, y ssa.Value) bool {
+	if x == y {
+		return true
+	}
+	bx, ok1 := x.(*ssa.BinOp)
+	by, ok2 := y.(*ssa.BinOp)
+	if !ok1 || !ok2 || bx.Op != by.Op {
+		return false
+	}
+	same := func(p, q ssa.Value) bool {
+		if p == q {
+			return true
+		}
+		cp, ok1 := p.(*ssa.Const)
+		cq, ok2 := q.(*ssa.Const)
+		return ok1 && ok2 && cp.Value != nil && cq.Value != nil && cp.Value.ExactString() == cq.Value.ExactString()
+	}
+	// operands must be immutable values (parameters, constants)
+	imm := func(p ssa.Value) bool {
+		switch p.(type) {
+		case *ssa.Parameter, *ssa.Const:
+			return true
+		}
+		return false
+	}
+	return imm(bx.X) && imm(bx.Y) && same(bx.X, by.X) && same(bx.Y, by.Y)
+}
 
 func constArrayLen(t types.Type) (int64, bool) {
 	if p, ok := t.Underlying().(*types.Pointer); ok {
@@ -307,6 +590,7 @@ func constArrayLen(t types.Type) (int64, bool) {
 
 // L is the length of a slice/string/array value as an affine form.
 func (a *Analysis) L(v ssa.Value) Aff {
+	v = a.canon(v)
 	if n, ok := constArrayLen(v.Type()); ok {
 		return K(n)
 	}
@@ -349,6 +633,7 @@ func (a *Analysis) L(v ssa.Value) Aff {
 
 // I is an integer value as an affine form.
 func (a *Analysis) I(v ssa.Value) Aff {
+	v = a.canon(v)
 	switch v := v.(type) {
 	case *ssa.Const:
 		if v.Value != nil && v.Value.Kind() == constant.Int {
@@ -706,6 +991,17 @@ func (a *Analysis) factsAt(b int, upto ssa.Instruction) []Aff {
 			}
 		}
 	}
+	// conditional merge facts whose condition is known here
+	if len(a.cond) > 0 {
+		for _, f := range a.G.FactsAt(b) {
+			for _, c := range a.cond {
+				if c.val == f.Val && condEquiv(c.cond, f.Cond) && a.G.DomBlock(c.phi.Block().Index, b) {
+					d := a.I(c.phi).Sub(a.I(c.edge))
+					facts = append(facts, d, d.Neg())
+				}
+			}
+		}
+	}
 	return withLenNonneg(facts)
 }
 
@@ -774,6 +1070,8 @@ func (a *Analysis) houdini() {
 		if isInt(phi.Type()) {
 			cands = append(cands, cand{phi, func(v ssa.Value) Aff { return a.I(v) }, "phi>=0"})
 			cands = append(cands, cand{phi, func(v ssa.Value) Aff { return a.I(v).Add(K(1)) }, "phi>=-1"})
+			cands = append(cands, cand{phi, func(v ssa.Value) Aff { return a.I(v).Sub(K(1)) }, "phi>=1"})
+			cands = append(cands, cand{phi, func(v ssa.Value) Aff { return a.I(v).Sub(K(2)) }, "phi>=2"})
 			for _, s := range seqVals {
 				for c := int64(0); c <= 2; c++ {
 					s, c := s, c
